@@ -267,10 +267,12 @@ example : validate q { args := [20], kwds := [(12, 21)] } = false ∧
 /-- **F17b** `def r(a, b=5)`; `partial(r, 1, 2)()` is a valid call, `isvalid` says `False` -/
 def r : Func Nat := { pos := [⟨10, none⟩, ⟨11, some 25⟩], varargs := false, kwonly := [], varkw := false, pArgs := [20, 21] }
 example : validate r { args := [], kwds := [] } = false ∧ (bind 0 r { args := [], kwds := [] }).isSome = true := by decide
-/-- **F30** a partial over a *bound method* `m(self, x, **kw)`: `partial(inst.m, 1)(x=2)` binds `x`
-twice, `isvalid` says `True` (the fixed positional is matched against `self`) -/
+/-- **F30, repaired**: a partial over a *bound method* `m(self, x, **kw)`: `partial(inst.m, 1)(x=2)` binds `x`
+twice; the fixed positional is matched against `x` (not against `self`, as it was before the repair), so `validate`
+now rejects the call as CPython does - and still accepts the valid `partial(inst.m, 1)(q=2)` -/
 def m : Func Nat := { pos := [⟨9, none⟩, ⟨10, none⟩], varargs := false, kwonly := [], varkw := true, pArgs := [20], bound := true }
-example : validate m { args := [], kwds := [(10, 21)] } = true ∧ bind 0 m { args := [], kwds := [(10, 21)] } = none := by decide
+example : validate m { args := [], kwds := [(10, 21)] } = false ∧ bind 0 m { args := [], kwds := [(10, 21)] } = none := by decide
+example : validate m { args := [], kwds := [(13, 21)] } = true ∧ (bind 0 m { args := [], kwds := [(13, 21)] }).isSome = true := by decide
 /-- non-vacuity of `C19_plain_partial`: a plain `def f(a, b=5, *args, **kw)` -/
 def f0 : Func Nat := { pos := [⟨10, none⟩, ⟨11, some 25⟩], varargs := true, kwonly := [], varkw := true }
 example : Plain f0 ∧ f0.kwonly = [] ∧ (names f0.pos).Nodup := by unfold Plain; decide
